@@ -3,7 +3,7 @@ from mindsdb_sql.parser.parser import SQLParser
 from mindsdb_sql.parser.ast import *
 from mindsdb_sql.parser.dialects.mysql.lexer import MySQLLexer
 from mindsdb_sql.exceptions import ParsingException
-from mindsdb_sql.parser.utils import ensure_select_keyword_order, JoinType
+from mindsdb_sql.parser.utils import ensure_select_keyword_order, JoinType, unescape_string
 
 """
 Unfortunately the rules are not iherited from base SQLParser, because it just doesn't work with Sly due to metaclass magic.
@@ -1033,11 +1033,11 @@ class MySQLParser(SQLParser):
 
     @_('QUOTE_STRING')
     def quote_string(self, p):
-        return p[0].strip('\'')
+        return unescape_string(p[0][1:-1], "'")
 
     @_('DQUOTE_STRING')
     def dquote_string(self, p):
-        return p[0].strip('\"')
+        return unescape_string(p[0][1:-1], '"')
 
 
     @_('')
